@@ -13,6 +13,26 @@ from glotaran.utils.io import safe_dataframe_fillna
 from glotaran.utils.io import safe_dataframe_replace
 
 
+def is_text_column(column_name: str) -> bool:
+    """Check if a column of a parameter table holds text (labels or expressions).
+
+    Text columns must be excluded from the type inference of pandas, else a column of numeric
+    looking labels (e.g. ``1.10``) or expressions (e.g. ``1``) is read as numbers.
+
+    Parameters
+    ----------
+    column_name : str
+        Name of the column as written in the file (any case, serialized or attribute name).
+
+    Returns
+    -------
+    bool
+        Whether the column is the label or the expression column.
+    """
+    column_name = str(column_name).lower()
+    return OPTION_NAMES_DESERIALIZED.get(column_name, column_name) in ("label", "expression")
+
+
 @register_project_io(["csv"])
 class CsvProjectIo(ProjectIoInterface):
     """Plugin for CSV data io."""
@@ -31,7 +51,14 @@ class CsvProjectIo(ProjectIoInterface):
         -------
             :class:`Parameters
         """
-        df = pd.read_csv(file_name, skipinitialspace=True, na_values=["None", "none"], sep=sep)
+        header = pd.read_csv(file_name, skipinitialspace=True, sep=sep, nrows=0).columns
+        df = pd.read_csv(
+            file_name,
+            skipinitialspace=True,
+            na_values=["None", "none"],
+            sep=sep,
+            dtype={column: str for column in header if is_text_column(column)},
+        )
         df.columns = [column.lower() for column in df.columns]
         df = df.rename(columns=OPTION_NAMES_DESERIALIZED)
         safe_dataframe_fillna(df, "minimum", -np.inf)
